@@ -495,7 +495,8 @@ def replay_tetra(rep, st, rng, nsplit, fallback):
         if not ok:
             continue
         check_split(rep, info, K, p, kids, ch, metric, 2, False, fallback)
-    rep.part("replay_tetra", runs=nruns, splits=min(nsplit, len(splits)))
+    old = rep.parts.get("replay_tetra", {}) if hasattr(rep, "parts") else {}
+    rep.part("replay_tetra", runs=nruns + old.get("runs", 0), splits=min(nsplit, len(splits)) + old.get("splits", 0))
 
 
 def check_split(rep, info, K, p, kids, exp_children, metric, ndiv, refine, fallback):
@@ -1039,7 +1040,9 @@ def _check(rep, tier, tag):
             "divide_fullsamples": ("MC_KMeshDivide.tla", cfg_divide(["cub_Oh", "cub_T", "tet_D4h", "tet_S4", "ort_D2h", "ort_C2v", "rho_D3d"], [111, 211, 221, 222], [111, 110], [2, 3], 4,
                                                                     None, True, False), False),
             "excl": ("MC_KMeshExcl.tla", cfg_excl(4, 6, False), False),
-            "tetra": ("MC_KMeshTetra.tla", cfg_tetra(["cub", "tet", "ort", "hex", "hex120"], [9, 4, 2, 1], [9, 6, 4, 3, 2], 6, False), True),
+            "tetra": ("MC_KMeshTetra.tla", cfg_tetra(["cub", "tet", "ort"], [9, 4, 2, 1], [9, 6, 4, 3, 2], 6, False), True),
+            # the trigonal wedges with 4 samples per direction (6 per direction puts samples on face planes: invariant Embedding)
+            "tetra_trig": ("MC_KMeshTetra.tla", cfg_tetra(["hex", "hex120"], [9, 4, 2, 1], [9, 6, 4, 3, 2], 4, False), True),
         }
         ngrid, ndivr, nsplit, ntile = 9000, 3000, 1500, 400
     else:
@@ -1110,6 +1113,9 @@ def _check(rep, tier, tag):
         optional("replay of Grid.get_K_list", replay_grid, rep, res["grid_tab"], rng, ngrid, usable)
         optional("replay of refinement steps", replay_divide, rep, res["divide"], rng, ndivr, usable, ntile, fallback)
     optional("replay of tetrahedral grids", replay_tetra, rep, res["tetra"], rng, nsplit, fallback)
+    if "tetra_trig" in res:
+        tlc.check_not_vacuous(res["tetra_trig"], ["VolRound", "VolEnd", "SizRound", "SizEnd"], "c06_tetra_trig")
+        optional("replay of tetrahedral grids", replay_tetra, rep, res["tetra_trig"], rng, nsplit, fallback)
 
     # ---------------- code -> spec
     recs = []
